@@ -705,8 +705,51 @@ def oracle_embeddings(o, rng, n):
 
 
 # ---- quaternion double cover ----------------------------------------------------------------------------------------
+def oracle_half_turn_equality(o, rng):
+    """q and -q compare equal also where a 'canonical representative' would be chosen discontinuously: half turns, whose scalar part is
+    zero up to rounding with an arbitrary sign -- (s, v) against (s', -v) with |s|, |s'| of a few 1e-17, and the named constructors at +pi / -pi"""
+    ctx = o.ctx
+    tiny = [0.0, 6.123233995736766e-17, -6.123233995736766e-17, 1e-17, -1e-17, 1e-16, -1e-16, 3e-16]
+    axes = [np.array([1.0, 0, 0]), np.array([0, 1.0, 0]), np.array([0, 0, 1.0]), np.array([0.6, 0.8, 0.0]), np.array([0.0, -0.6, 0.8])] + \
+           [rand_unit(rng, 3) for _ in range(4)]
+    for v in axes:
+        for s1 in tiny:
+            for s2 in tiny:
+                q1, q2 = np.r_[s1, v], np.r_[s2, -v]
+                ctx.case(('cover:half-turn-eq', tuple(q1), tuple(q2)))
+                ctx.count('oracle:cover:half-turn-eq')
+                eq = o.guard('cover:half-turn-eq', lambda: (UnitQuaternion(q1) == UnitQuaternion(q2), UnitQuaternion(q1) != UnitQuaternion(q2),
+                                                             UnitQuaternion(q1) == UnitQuaternion(np.r_[s2, v])), q1)
+                if eq is not None and not (bool(eq[0]) is True and bool(eq[1]) is False and bool(eq[2]) is True):
+                    ctx.fail('oracle:cover:half-turn-eq:value', f"half turn about {v.tolist()}: UnitQuaternion([{s1!r}, v]) == UnitQuaternion([{s2!r}, -v]) is {eq[0]} "
+                             f"(!= is {eq[1]}; == UnitQuaternion([{s2!r}, v]) is {eq[2]}): the same rotation up to 1e-16, q and -q must compare equal",
+                             {'q1_hex': _hex(q1), 'q2_hex': _hex(q2)})
+    pairs = [('Rx(pi) vs Rx(-pi)', lambda: (UnitQuaternion.Rx(math.pi), UnitQuaternion.Rx(-math.pi))),
+             ('Ry(pi) vs Ry(-pi)', lambda: (UnitQuaternion.Ry(math.pi), UnitQuaternion.Ry(-math.pi))),
+             ('Rz(180deg) vs Rz(-180deg)', lambda: (UnitQuaternion.Rz(180, 'deg'), UnitQuaternion.Rz(-180, 'deg'))),
+             ('Rx(pi) vs Rx(3pi)', lambda: (UnitQuaternion.Rx(math.pi), UnitQuaternion.Rx(3 * math.pi))),
+             ('AngVec(pi,v) vs AngVec(-pi,v)', lambda: (UnitQuaternion.AngVec(math.pi, [0.6, 0.8, 0]), UnitQuaternion.AngVec(-math.pi, [0.6, 0.8, 0]))),
+             ('EulerVec(w) vs EulerVec(-w), |w| = pi', lambda: (UnitQuaternion.EulerVec(math.pi * np.array([0.0, 0.6, 0.8])), UnitQuaternion.EulerVec(-math.pi * np.array([0.0, 0.6, 0.8])))),
+             ('RPY(pi,0,0) vs RPY(-pi,0,0)', lambda: (UnitQuaternion.RPY([math.pi, 0, 0]), UnitQuaternion.RPY([-math.pi, 0, 0]))),
+             ('UQ(SO3.Rx(1)*SO3.Rx(pi-1)) vs UQ.Rx(1)*UQ.Rx(pi-1)', lambda: (UnitQuaternion(SO3.Rx(1.0) * SO3.Rx(math.pi - 1.0)), UnitQuaternion.Rx(1.0) * UnitQuaternion.Rx(math.pi - 1.0)))]
+    for name, mk in pairs:
+        ctx.case(('cover:half-turn-eq:named', name))
+        ctx.count('oracle:cover:half-turn-eq')
+        ab = o.guard('cover:half-turn-eq:' + name, mk, name)
+        if ab is None:
+            continue
+        a, b = ab
+        if float(np.max(np.abs(np.asarray(a.R, float) - np.asarray(b.R, float)))) > 1e-9:
+            continue          # not the same rotation (would be another law's business)
+        eq = o.guard('cover:half-turn-eq:' + name, lambda: (a == b, a != b), name)
+        if eq is not None and not (bool(eq[0]) is True and bool(eq[1]) is False):
+            ctx.fail('oracle:cover:half-turn-eq:named-constructors', f"{name}: the same half turn (rotation matrices agree to 1e-9) but == is {eq[0]}, != is {eq[1]} "
+                     f"(vectors {np.asarray(a.vec).tolist()} and {np.asarray(b.vec).tolist()})", {'pair': name})
+
+
 def oracle_double_cover(o, rng, n):
     ctx = o.ctx
+    oracle_half_turn_equality(o, rng)
     for _ in range(n):
         q = rand_unit(rng, 4)
         if rng.random() < 0.3:
